@@ -601,6 +601,18 @@ func (c *c08) step(st c08Step) error {
 		if re := hostErr(res.err); re != nil {
 			c.r.SetAdd("host_error_texts", re.Description)
 		}
+		if !post.State.Equal(pre.State) {
+			// do not let a corrupted contract cascade into later steps
+			if err := c.newContract(); err != nil {
+				return err
+			}
+			c.lab.Mux.Forget(c.lab.Mux.Streams())
+			c.lab.Log.Trim(c.aud.seq)
+			return nil
+		}
+		if debugAttempts {
+			fmt.Printf("bad %-40s -> %v\n", label, res.err)
+		}
 	} else {
 		c.r.Count("good_requests_"+st.RPC, 1)
 		if !res.success {
@@ -790,8 +802,8 @@ func runC08(r *mon.Run, replay string) {
 	r.Floor("revision_txns_validated", 100)
 	r.Floor("renewals_confirmed", 3)
 	r.Floor("concurrent_commits", 20)
-	workers := r.Pick(6, 16)
-	steps := r.Pick(120, 600)
+	workers := r.Pick(8, 16)
+	steps := r.Pick(300, 1500)
 	var wg sync.WaitGroup
 	for w := 0; w < workers; w++ {
 		wg.Add(1)
